@@ -17,3 +17,10 @@ register_record("BeaconKeys", {"aes_key": "opt[bytes]", "hmac_key": "opt[bytes]"
 
 register_object("XorEncodedFile", {"fh": "file", "nonce_offset": "int", "initial_nonce": "bytes", "nonced_filesize": "bytes"},
                 "dissect.cobaltstrike.xordecode")
+
+register_record("GuardrailMetadata", {"beacon_config_offset": "int", "guard_config_offset": "int",
+                                      "masked_beacon_config": "bytes", "masked_guard_config": "bytes",
+                                      "beacon_xor_key": "bytes", "guardrail_xor_key": "bytes",
+                                      "unmasked_guard_config": "bytes", "checksum": "int",
+                                      "payload_xor_key": "opt[bytes]", "unmasked_beacon_config": "opt[bytes]",
+                                      "settings": "any"}, "dissect.cobaltstrike.guardrails")
